@@ -23,4 +23,5 @@ def run(ctx):
     E.r_mustfollow(prog, rep)
     E.r_fifo(prog, rep)
     E.r_outstanding_count(prog, rep)
+    E.r_waitcount(prog, rep)
 from rules.engine_variants import C06 as VARIANTS  # noqa: E402
